@@ -19,6 +19,11 @@ from gallia.utils import auto_int
 
 logger = get_logger(__name__)
 
+# One datagram of an ISO-TP socket is one PDU; a receive buffer that is
+# too small truncates it silently. The kernel default is 8300 bytes, the
+# module parameter max_pdu_size goes up to this value (net/can/isotp.c).
+ISOTP_MAX_PDU_SIZE = 1025 * 1024
+
 # Socket Constants not available in the socket module,
 # see linux/can/isotp.h
 # TODO: Can be removed in the future…
@@ -72,7 +77,7 @@ class ISOTPConfig(BaseModel):
         return auto_int(v)
 
 
-class ISOTPTransport(BaseTransport, scheme="isotp"):
+class ISOTPTransport(BaseTransport, scheme="isotp", bufsize=ISOTP_MAX_PDU_SIZE):
     def __init__(self, target: TargetURI, config: ISOTPConfig, sock: s.socket) -> None:
         super().__init__(target)
         self._sock = sock
